@@ -246,6 +246,39 @@ def run(run):
             descs.append(r[2])
             run.nontrivial((net.eq(), str(r[2]["path"]), str(r[2]["targets"]), str(r[2]["allow_outer"]), r[2]["minimize"], r[2]["seed"],
                             r[2]["call"], str(r[2].get("reslice")), str(r[2].get("inplace"))))
+    # ---- larger regular networks through the slice-and-reconfigure drivers with a whole forest: a round may leave the trees of
+    # the forest at different largest intermediates, what is handed back must itself honour the target
+    from .. import repotrace
+    for sd in range(10 if quick else 120):
+        for d_max in (3, 4):
+            for div in (3, 6):
+                tree0 = ct.utils.rand_tree(12, 3, seed=sd, d_max=d_max, optimize="greedy")
+                net = repotrace.net_of(tree0)
+                tgt = max(tree0.max_size() // div, 1)
+                forest = (sd + div) % 4 != 0
+                d5 = {"net": net.to_json(), "path": [list(p) for p in tree0.get_path()], "targets": {"target_size": int(tgt)},
+                      "allow_outer": True, "minimize": "flops", "seed": sd, "prep": "rand_tree(12, 3)", "pre_sliced": [],
+                      "call": "slice_and_reconfigure_forest(num_trees=4)" if forest else "slice_and_reconfigure", "reslice": False, "inplace": False}
+                run.count()
+                try:
+                    with core.watchdog(180):
+                        random.seed(7 + sd)      # (the slice searches inside draw from the global generator)
+                        if forest:
+                            t5 = tree0.slice_and_reconfigure_forest(tgt, num_trees=4, parallel=False)
+                        else:
+                            t5 = tree0.slice_and_reconfigure(tgt)
+                    if t5.contract_stats()["flops"] * 100 >= 2**31 or tree0.contract_stats()["flops"] * 100 >= 2**31:
+                        continue
+                    inv5 = net._inv()
+                    cases.append({"kind": "slice", "net": net.tla(), "ch": observe.children_of(t5), "sl0": set(), "mult0": 1,
+                                  "forbidden": set(), "tsize": int(tgt), "tslices": 0, "tover": [0, 0], "entries": [], "ret": 0,
+                                  "real": {"size": 0, "flops": 0, "mult": 0}, "after": {inv5[i] for i in t5.sliced_inds}, "reslice": False})
+                    descs.append(d5)
+                    run.nontrivial(("forest", sd, d_max, div))
+                except core.Hang:
+                    raise
+                except Exception:
+                    raised += 1
     run.extra["searches_that_raised_not_judged"] = raised
     verdicts, results = tla.judge_cases(f"c07_{run.tier}", "SliceFinderJudge", cases, chunk=200)
     for res in results:
